@@ -176,3 +176,29 @@ def match_known(known: List[dict], f: Finding) -> Optional[dict]:
         if f.prop in k.get("properties", []) and k.get("rule") == f.rule and k.get("construct") == f.construct and k.get("statement") == f.statement:
             return k
     return None
+
+
+class Relabel:
+    """view of a Run that records obligations of a shared rule set under another rule id."""
+
+    def __init__(self, run: Run, rule: str):
+        self._r = run
+        self._rule = rule
+
+    def __getattr__(self, k):
+        return getattr(self._r, k)
+
+    def rule(self, _id, doc):
+        return None
+
+    def check(self, cond, _rule, *a, **kw):
+        return self._r.check(cond, self._rule, *a, **kw)
+
+    def fail(self, _rule, *a, **kw):
+        return self._r.fail(self._rule, *a, **kw)
+
+    def ok(self, _rule, *a, **kw):
+        return self._r.ok(self._rule, *a, **kw)
+
+    def floor(self, _rule, *a, **kw):
+        return self._r.floor(self._rule, *a, **kw)
